@@ -198,6 +198,39 @@ def check_trailer_write(rep, mod, flags):
             R.check(('mem', ('param', 0, off['total_in'])) in deps, mod.where(f, i), 'gzip trailer word does not depend on stream->total_in (ISIZE)', key='R-TRAILER-ENDIAN|isize')
 
 
+def check_state_after_compare(rep, mod):
+    """the trailer comparators own block_state once they run: they leave ISAL_CHECKSUM_CHECK behind when the trailer is not complete yet
+    (so that the next call resumes the comparison) and the finished state otherwise.  A store to block_state that can execute after the
+    comparator returned, in the same call, destroys the resume point and turns 'need more input' into 'finished'."""
+    R = rep.rule('R-VERIFY-STATE', 'isal_inflate / isal_inflate_stateless: no store to state->block_state is reachable after a call of check_gzip_checksum / check_zlib_checksum within the same invocation '
+                 '(CFG reachability from the call site; the comparator itself is the last writer of the decoder state)', floor=2, unit='entry points')
+    off = c19.field_offsets('struct inflate_state', ['block_state'])['block_state']
+    for fn in ('isal_inflate', 'isal_inflate_stateless'):
+        f = mod.funcs.get(fn)
+        if f is None:
+            raise AnalysisBroken(fn + ' not found')
+        R.instance()
+        P = irrules.prov(mod, f)
+        calls = [i for i in f.all_insns() if i.op == 'call' and base_name(i.callee) in ('check_gzip_checksum', 'check_zlib_checksum')]
+        if len(calls) < 2:
+            raise AnalysisBroken('%s: expected calls of both trailer comparators, found %d' % (fn, len(calls)))
+        for cs in calls:
+            # instructions after the call in its block, then every block reachable from it
+            later = list(f.blocks[cs.block].insns[cs.idx + 1:])
+            seen = set()
+            work = list(f.blocks[cs.block].succs)
+            while work:
+                b = work.pop()
+                if b in seen:
+                    continue
+                seen.add(b)
+                later += f.blocks[b].insns
+                work += f.blocks[b].succs
+            bad = [j for j in later if j.op == 'store' and ('param', 0, off) in P.atoms(j.ops[1])]
+            R.check(not bad, mod.where(f, bad[0]) if bad else mod.where(f, cs), '%s: block_state is stored here after %s (%s) may have left ISAL_CHECKSUM_CHECK for an incomplete trailer: the pending comparison is lost and the call reports the stream as finished'
+                    % (fn, base_name(cs.callee), mod.where(f, cs)), key='R-VERIFY-STATE|%s|%s' % (fn, base_name(cs.callee)), sample='%s: nothing writes block_state after %s' % (fn, base_name(cs.callee)))
+
+
 def check_adler_range(rep, mod):
     """inflate keeps the running Adler-32 as B<<16 | (A-1); finalize_adler32 converts the low half back to A.
     Both halves of a reference Adler-32 are residues mod 65521, so the low half written here must lie in
@@ -255,4 +288,5 @@ def main(tier):
     check_cmp(rep, mod)
     check_trailer_write(rep, mod, flags)
     check_adler_range(rep, mod)
+    check_state_after_compare(rep, mod)
     return rep.finish()
